@@ -43,6 +43,23 @@ extern "C" {
 #include <stdint.h>
 #include <stdbool.h>
 
+#ifdef UPIPE_VERIF
+/* scheduling points for the /verif model-checking scheduler */
+enum upipe_verif_kind {
+    UPIPE_VERIF_LOAD,
+    UPIPE_VERIF_STORE,
+    UPIPE_VERIF_CAS,
+    UPIPE_VERIF_FETCH_ADD,
+    UPIPE_VERIF_FETCH_SUB,
+    UPIPE_VERIF_PLAIN_READ,
+    UPIPE_VERIF_PLAIN_WRITE
+};
+void upipe_verif_point(int kind, const volatile void *addr);
+#define UPIPE_VERIF_POINT(kind, addr) upipe_verif_point(kind, addr)
+#else
+#define UPIPE_VERIF_POINT(kind, addr) ((void)0)
+#endif
+
 /* TODO: make C11 support interoperable with C++ code
  * e.g. a refcount could be allocated by C11 code then used by C++ code */
 #if 0 && !defined(__cplusplus) && (__STDC_VERSION__ >= 201112L) && !defined(__STDC_NO_ATOMICS__)
@@ -97,6 +114,7 @@ static inline void type##_init(atomictype *obj, ctype value)                \
  */                                                                         \
 static inline void type##_store(atomictype *obj, ctype value)               \
 {                                                                           \
+    UPIPE_VERIF_POINT(UPIPE_VERIF_STORE, obj);                              \
     __atomic_store(obj, &value, __ATOMIC_SEQ_CST);                          \
 }                                                                           \
 /** @This returns the value of the uatomic variable.                        \
@@ -107,6 +125,7 @@ static inline void type##_store(atomictype *obj, ctype value)               \
 static inline ctype type##_load(atomictype *obj)                            \
 {                                                                           \
     ctype ret;                                                              \
+    UPIPE_VERIF_POINT(UPIPE_VERIF_LOAD, obj);                               \
     __atomic_load(obj, &ret, __ATOMIC_SEQ_CST);                             \
     return ret;                                                             \
 }                                                                           \
@@ -122,6 +141,7 @@ static inline ctype type##_load(atomictype *obj)                            \
 static inline bool type##_compare_exchange(atomictype *obj,                 \
                                            ctype *expected, ctype desired)  \
 {                                                                           \
+    UPIPE_VERIF_POINT(UPIPE_VERIF_CAS, obj);                                \
     return __atomic_compare_exchange(obj, expected, &desired, false,        \
                                      __ATOMIC_SEQ_CST, __ATOMIC_SEQ_CST);   \
 }                                                                           \
@@ -145,6 +165,7 @@ UATOMIC_TEMPLATE(uatomic_ptr, void *, uatomic_ptr_t)
 static inline uint32_t uatomic_fetch_add(uatomic_uint32_t *obj,
                                          uint32_t operand)
 {
+    UPIPE_VERIF_POINT(UPIPE_VERIF_FETCH_ADD, obj);
     return __atomic_fetch_add(obj, operand, __ATOMIC_SEQ_CST);
 }
 
@@ -157,6 +178,7 @@ static inline uint32_t uatomic_fetch_add(uatomic_uint32_t *obj,
 static inline uint32_t uatomic_fetch_sub(uatomic_uint32_t *obj,
                                          uint32_t operand)
 {
+    UPIPE_VERIF_POINT(UPIPE_VERIF_FETCH_SUB, obj);
     return __atomic_fetch_sub(obj, operand, __ATOMIC_SEQ_CST);
 }
 
